@@ -21,3 +21,12 @@ Theorem C18_split_nonneg : forall g ge cs,
   let '(gen, v2g, bat) := @split_feedin R RNum g ge cs in 0 <= gen /\ 0 <= v2g /\ 0 <= bat.
 Proof. exact split_nonneg. Qed.
 Print Assumptions C18_split_nonneg.
+
+(* the split_feedin model IS the translated source of report.split_feedin (up to the final rounding, which the
+   translator drops and the correspondence applies) *)
+From SV Require Import Tie.
+From SVG Require Import Src.
+Theorem C18_split_feedin_is_source : forall grid generation cs_sum : R,
+  @split_feedin_src R RNum grid generation cs_sum = @split_feedin R RNum grid generation cs_sum.
+Proof. intros. apply split_feedin_is_source. Qed.
+Print Assumptions C18_split_feedin_is_source.
